@@ -52,7 +52,17 @@ func VC06_Insert() {
 		vias = append(vias, "SIP/2.0/UDP 10.0.2."+itoa(2+i)+":5060;branch=z9hG4bK"+rt.Str("br", "alnum", 1, L))
 	}
 	for i := 0; i < nr; i++ {
-		rrs = append(rrs, "<sip:10.0.8."+itoa(1+i)+";lr>")
+		// existing entries: foreign proxies, or this very listener (a request that spirals back)
+		switch rt.Choice("rr-kind", 4) {
+		case 0:
+			rrs = append(rrs, "<sip:10.0.8."+itoa(1+i)+";lr>")
+		case 1:
+			rrs = append(rrs, "<sip:"+wListenAddr+":"+itoa(wListenPort)+";lr>")
+		case 2:
+			rrs = append(rrs, "<sip:"+wListenAddr+";lr>")
+		case 3:
+			rrs = append(rrs, "<sip:"+rt.Str("rruser", clsUser, 1, 2)+"@10.0.8."+rt.Dec("rroctet", 2)+":"+genPort()+";lr;"+rt.Str("rrpk", clsParam, 1, 2)+">")
+		}
 	}
 	// layout: Via lines, then other headers with the Record-Route lines before or after From
 	head := ""
